@@ -143,10 +143,12 @@ class ChordProgression(events_lib.SimpleEventSequence):
     self._steps_per_quarter = (
         quantized_sequence.quantization_info.steps_per_quarter)
 
-    # Sort track by chord times.
+    # Sort track by chord times. Chords quantized onto the same step are ordered
+    # by their unquantized time, so that the chord in force before `start_step`
+    # does not depend on the order in which the annotations are stored.
     chords = sorted([a for a in quantized_sequence.text_annotations
                      if a.annotation_type == CHORD_SYMBOL],
-                    key=lambda chord: chord.quantized_step)
+                    key=lambda chord: (chord.quantized_step, chord.time))
 
     prev_step = None
     prev_figure = NO_CHORD
